@@ -505,7 +505,7 @@ class ActionTextGenWalker(Walker):
                 
     def accept_SM_EVT(self, inst):
         self.buf(inst.Drv_Lbl)
-        if one(inst).SM_PEVT[525]():
+        if one(inst).SM_PEVT[525]() and not inst.Drv_Lbl.endswith('*'):
             self.buf('*')
             
         self.buf(":'%s'" % inst.Mning)
